@@ -25,12 +25,16 @@ def load_mutants(unit):
 
 
 def make_mutator(m):
+    state = {"applied": 0}
+
     def mutate(fpath, name, text):
         if name != m["fn"] or (m.get("file") and m["file"] != fpath):
             return text
         if text.count(m["find"]) < 1:
-            raise Undecided("mutant %s: pattern not found in %s (update vx/mutants)" % (m["id"], name))
+            return text  # another fn of the same name (e.g. two `drop`s)
+        state["applied"] += 1
         return text.replace(m["find"], m["replace"], 1)
+    mutate.state = state
     return mutate
 
 
@@ -61,10 +65,13 @@ def run(prop, units, scratch, seed, out):
         un, m = job
         sub = os.path.join(scratch, "mut_" + m["id"].replace("/", "_"))
         os.makedirs(sub, exist_ok=True)
+        mut = make_mutator(m)
         try:
-            r = runner.verify_unit(un, sub, reach=False, mutate=make_mutator(m))
+            r = runner.verify_unit(un, sub, reach=False, mutate=mut)
         except Undecided as e:
             return (m, None, str(e))
+        if not mut.state["applied"]:
+            return (m, None, "pattern not found in any fn named %s (update vx/mutants)" % m["fn"])
         failed = set(r["failed"]) | {"(unattributed in %s)" % u.get("function") for u in r["unattributed"]}
         return (m, failed, None)
 
